@@ -177,7 +177,9 @@ CLAIMED = {
     "C12": dict(
         text="Lean 4 theorem C12_cache_transparent over a model of transformArg with its cache: for every cache content "
              "satisfying the entry invariant, every key collision pattern, every prefix hit, the value handed to the operator "
-             "is the rule's own transformation list applied to the current value, and the invariant is preserved. Tied to "
+             "is the rule's own transformation list applied to the current value, and the invariant is preserved; the theorem's hypothesis "
+             "about the process-wide table of chains is discharged against a model of that table for any number of registrations by any "
+             "number of WAFs (C12_interned: ids are positions in a list that only grows). Tied to "
              "/repo by `eng` (profile cache) and `engrep`.",
         note=_ENG_NOTE, ref="6/C12", engine="eng,engrep"),
     "C17": dict(
